@@ -29,6 +29,10 @@ func pipeIndex(n string) int {
 			return i
 		}
 	}
+	var k int
+	if _, err := fmt.Sscanf(n, "b%d", &k); err == nil {
+		return 100 + k // the pipes of the concurrent bursts
+	}
 	return -1
 }
 
@@ -186,7 +190,31 @@ func genReal(r *Rng) Scenario {
 	return sc
 }
 
+// genBurst: one session of bursts of concurrent pipe creations and deletions (every burst creates w new pipes and deletes
+// the pipes of the burst before), ended by SIGKILL - at once when, after a burst, the definitions' file is not what was
+// acknowledged; then the start: the definitions must be the acknowledged ones
+func genBurst(r *Rng, bursts int) Scenario {
+	sc := Scenario{Kind: "burst", NParts: 1, Range: [2]int64{1, 100}}
+	w := r.PickInt(6, 12, 24)
+	ss := Session{End: "kill"}
+	var prev []string
+	for b := 0; b < bursts; b++ {
+		// two sets of names take turns (a deleted name is created again two bursts later; small numbers for the model)
+		var cr []string
+		for i := 0; i < w; i++ {
+			cr = append(cr, fmt.Sprintf("b%d", (b%2)*w+i))
+		}
+		ss.Steps = append(ss.Steps, Step{Op: "burst", Create: cr, Delete: prev})
+		prev = cr
+	}
+	sc.Sessions = []Session{ss}
+	return sc
+}
+
 func genScenario(r *Rng) Scenario {
+	if r.Chance(1, 25) {
+		return genBurst(r, 60)
+	}
 	sc := genShape(r)
 	restyle(&sc, r)
 	return sc
@@ -237,6 +265,23 @@ func genShape(r *Rng) Scenario {
 			all = append(all, ts...)
 			written[p] = true
 			ss.Steps = append(ss.Steps, Step{Op: "write", Part: p, Ts: ts}, Step{Op: "sync"})
+			if r.Chance(1, 3) {
+				// ... with the index rebuilder held: the session is that one write (once more, sometimes), flushed or not, and
+				// its end: the chunk's info is still marked partial when the snapshot is written
+				ss.Hold = true
+				ss.Steps = ss.Steps[:1]
+				if r.Chance(1, 2) {
+					next[p] += int64(r.Range(1, 3))
+					ts2 := []int64{next[p]*10 + int64(p)}
+					all = append(all, ts2...)
+					ss.Steps = append(ss.Steps, Step{Op: "write", Part: p, Ts: ts2})
+				}
+				if r.Chance(1, 2) || ss.End != "stop" {
+					ss.Steps = append(ss.Steps, Step{Op: "sync"})
+				}
+				sc.Sessions = append(sc.Sessions, ss)
+				continue
+			}
 		}
 		nsteps := r.Range(0, 6) // 0: the server is started and stopped (or killed) at once
 		for k := 0; k < nsteps; k++ {
@@ -427,6 +472,18 @@ func corpus() []Scenario {
 		Scenario{Kind: "fwd", Pipe: "s", NParts: 2, Range: [2]int64{15, 25}, Sessions: []Session{{Steps: []Step{{Op: "fwdpipe", Name: "s"}, {Op: "round", Ts: []int64{10, 20}}}, End: "stop", Surgery: []Surgery{{Kind: "progress-torn", Name: "s", K: 0}, {Kind: "registry-old-name"}}}, {Steps: []Step{{Op: "round", Ts: []int64{30}}, {Op: "round", Ts: []int64{40}}}, End: "kill"}}},
 		Scenario{Kind: "corpus", NParts: 1, Range: [2]int64{15, 25}, Sessions: []Session{{Steps: []Step{w(0, 10), {Op: "pipe", Name: "pa"}, {Op: "pipe", Name: "PA"}}, End: "stop", Surgery: []Surgery{{Kind: "registry-old-name"}}}, {Steps: []Step{{Op: "delpipe", Name: "pa"}}, End: "kill"}}},
 	)
+	// concurrent requests about pipe definitions, SIGKILL right after the last acknowledgement (C07_crash_pipes: the file holds the
+	// acknowledged definitions at every moment)
+	{
+		r := NewRng(7)
+		edge = append(edge, genBurst(r, 120), genBurst(r, 120))
+	}
+	edge = append(edge,
+		// C07_partial_mark_saved: 10,20,30 flushed; SIGKILL (no snapshot); start: the first request is a write of 40 and the index
+		// rebuilder is held; graceful stop at once; start: RANGE [15:25] shows 20 - and again after one more clean restart
+		Scenario{Kind: "corpus", NParts: 1, Range: [2]int64{15, 25}, Sessions: []Session{{Steps: []Step{w(0, 10, 20, 30), sy}, End: "kill"}, {Blind: true, Hold: true, Steps: []Step{w(0, 40)}, End: "stop"}, {Steps: []Step{}, End: "stop"}}},
+		Scenario{Kind: "corpus", NParts: 2, Range: [2]int64{15, 25}, Sessions: []Session{{Steps: []Step{w(0, 10, 20, 30), w(1, 11, 21), sy}, End: "stop", Surgery: []Surgery{{Kind: "cindex-drop"}}}, {Blind: true, Hold: true, Steps: []Step{w(1, 31), w(1, 41), sy}, End: "stop"}, {Blind: true, Hold: true, Steps: []Step{w(0, 40)}, End: "kill"}}},
+	)
 	return append(edge, []Scenario{
 		// C07_clean (C07_clean_nosync_refuted): acknowledged, then a graceful stop at once: without the sync at shutdown 40 and the whole of partition 1 are gone
 		{Kind: "corpus", NParts: 2, Range: [2]int64{15, 25}, Sessions: []Session{{Steps: []Step{w(0, 10, 20, 30), sy, w(0, 40), w(1, 11)}, End: "stop"}}},
@@ -557,6 +614,20 @@ func gSession(s Session, np int, ensure bool, fwd string) string {
 		if x.Op == "failcreate" {
 			continue // the write is not acknowledged and leaves nothing behind: no step of the model
 		}
+		if x.Op == "burst" {
+			// concurrent requests about different pipes: any order gives the same definitions
+			for _, n := range x.Create {
+				st = append(st, GApp("SPipe", GNat(pipeIndex(n))))
+			}
+			for _, n := range x.Delete {
+				st = append(st, GApp("SDelPipe", GNat(pipeIndex(n))))
+			}
+			continue
+		}
+		if s.Blind && s.Hold && x.Op == "write" {
+			st = append(st, GApp("SBlindWrite", GNat(x.Part), GListZ(x.Ts))) // the chunk is unknown to the time index, nothing rebuilds it
+			continue
+		}
 		st = append(st, gStep(x))
 	}
 	var sg []string
@@ -646,6 +717,13 @@ func mkCase(sc *Scenario, stream string) (*Case, error) {
 	if err != nil {
 		return nil, err
 	}
+	if tr.cut > 0 {
+		// the session was cut short by the crash: model and oracle follow what was run
+		cp := *sc
+		cp.Sessions = []Session{sc.Sessions[0]}
+		cp.Sessions[0].Steps = append([]Step{}, sc.Sessions[0].Steps[:tr.cut]...)
+		sc = &cp
+	}
 	ss := make([]string, len(sc.Sessions))
 	for i, s := range sc.Sessions {
 		ss[i] = gSession(s, sc.NParts, sc.Ensure, sc.fwdName())
@@ -675,6 +753,9 @@ func mkCase(sc *Scenario, stream string) (*Case, error) {
 		}
 		if s.Blind {
 			tags = append(tags, "blind-start")
+		}
+		if s.Blind && s.Hold {
+			tags = append(tags, "blind-start:rebuilder-held")
 		}
 		for _, st := range s.Steps {
 			if st.Op == "drop" || st.Op == "round" {
